@@ -39,6 +39,53 @@ def _tag_conversions(fn):
     return out
 
 
+def tag_rule(ctx, prog, RID):
+    """tag text -> 16-bit lookup key without wrap-around (C04: a tag above 65535 must be rejected; C05: it must stay an unknown tag)"""
+    # ---------------- R04.2
+    n_conv = 0
+    for fq in (MB + 'decode', MB + 'decode_group'):
+        f = prog.fn1(fq)
+        ctx.saw(f)
+        convs = _tag_conversions(f)
+        ctx.need(convs, fq + ': no tag conversion found')
+        for i, c in enumerate(convs):
+            n_conv += 1
+            rt = f.tu.types[c.callee['ret']]
+            wraps = c.callee_qp == 'FIX8::fast_atoi' or c.callee_qp == 'atoi'
+            if wraps:
+                # a wrapping parser is acceptable only if the text length is bounded so that the value fits the result type
+                bits = rt.get('bits', 0)
+                maxdigits = len(str((1 << bits) - 1)) - 1
+                lenguard = False
+                for (a, pol) in q.controlling_atoms(f, c):
+                    for x in a.walk():
+                        if x.is_call and x.callee_qp == 'strlen' and q.same_expr(x.args[0], c.args[0]):
+                            lo, hi = q.interval_from_guards(f, c, x)
+                            lenguard = hi <= maxdigits
+                ctx.check(lenguard, RID, '%s#tag-parse@%d' % (fq, i), c.loc, 'tag text is converted without wrap-around',
+                          'tag text is converted with %s, which wraps modulo 2^%d: tag %d is taken for tag 108' % (c.callee_q, bits, (1 << bits) + 108))
+                continue
+            ctx.ok(RID, '%s#tag-parse@%d' % (fq, i), c.loc, 'tag text is converted with the saturating %s' % c.callee_qp)
+            # narrowings of the wide value
+            holder = c.parent
+            while holder is not None and holder.k != 'DeclStmt':
+                holder = holder.parent
+            ctx.need(holder is not None, fq + ': wide tag value is not kept in a local')
+            wide = [dd for dd, ii in holder.r['decls'] if ii >= 0 and c in list(f.node(ii).walk())][0]
+            narrow = []
+            for n in f.all_nodes():
+                if n.k in ('ImplicitCastExpr', 'CXXStaticCastExpr', 'CStyleCastExpr', 'CXXFunctionalCastExpr') and n.type and n.type.get('k') == 'int' and n.type.get('bits', 64) <= 16:
+                    if q.refers_to_decl(n.children[0], wide) and n.children[0].type and n.children[0].type.get('bits', 0) > 16:
+                        narrow.append(n)
+            ctx.check(bool(narrow), RID, '%s#tag-narrow.found@%d' % (fq, i), c.loc, 'the wide tag value is narrowed to a 16-bit key somewhere (%d site(s))' % len(narrow))
+            for j, n in enumerate(narrow):
+                lo, hi = q.interval_from_guards(f, n, n.children[0], match=lambda x: q.refers_to_decl(x, wide))
+                ctx.check(hi <= 65535, RID, '%s#tag-narrow@%d.%d' % (fq, i, j), n.loc, 'narrowing to unsigned short happens only for values <= %s' % hi,
+                          'tag value is narrowed to unsigned short without a dominating <= 65535 decision')
+    ctx.need(n_conv >= 3, 'fewer than 3 tag conversions found (%d)' % n_conv)
+
+
+
 def run(ctx):
     prog = Program(UNITS)
     ctx.units.update(UNITS)
@@ -81,48 +128,7 @@ def run(ctx):
                   'the consumed-length test rejects only %s decodes: a Length/data pair whose declared length runs into the trailer consumes more '
                   'than the checksummed region and the message is accepted with the CheckSum field swallowed' % ('/'.join(sorted(sides)) or 'no'))
 
-    # ---------------- R04.2
-    n_conv = 0
-    for fq in (MB + 'decode', MB + 'decode_group'):
-        f = prog.fn1(fq)
-        ctx.saw(f)
-        convs = _tag_conversions(f)
-        ctx.need(convs, fq + ': no tag conversion found')
-        for i, c in enumerate(convs):
-            n_conv += 1
-            rt = f.tu.types[c.callee['ret']]
-            wraps = c.callee_qp == 'FIX8::fast_atoi' or c.callee_qp == 'atoi'
-            if wraps:
-                # a wrapping parser is acceptable only if the text length is bounded so that the value fits the result type
-                bits = rt.get('bits', 0)
-                maxdigits = len(str((1 << bits) - 1)) - 1
-                lenguard = False
-                for (a, pol) in q.controlling_atoms(f, c):
-                    for x in a.walk():
-                        if x.is_call and x.callee_qp == 'strlen' and q.same_expr(x.args[0], c.args[0]):
-                            lo, hi = q.interval_from_guards(f, c, x)
-                            lenguard = hi <= maxdigits
-                ctx.check(lenguard, 'R04.2', '%s#tag-parse@%d' % (fq, i), c.loc, 'tag text is converted without wrap-around',
-                          'tag text is converted with %s, which wraps modulo 2^%d: tag %d is taken for tag 108' % (c.callee_q, bits, (1 << bits) + 108))
-                continue
-            ctx.ok('R04.2', '%s#tag-parse@%d' % (fq, i), c.loc, 'tag text is converted with the saturating %s' % c.callee_qp)
-            # narrowings of the wide value
-            holder = c.parent
-            while holder is not None and holder.k != 'DeclStmt':
-                holder = holder.parent
-            ctx.need(holder is not None, fq + ': wide tag value is not kept in a local')
-            wide = [dd for dd, ii in holder.r['decls'] if ii >= 0 and c in list(f.node(ii).walk())][0]
-            narrow = []
-            for n in f.all_nodes():
-                if n.k in ('ImplicitCastExpr', 'CXXStaticCastExpr', 'CStyleCastExpr', 'CXXFunctionalCastExpr') and n.type and n.type.get('k') == 'int' and n.type.get('bits', 64) <= 16:
-                    if q.refers_to_decl(n.children[0], wide) and n.children[0].type and n.children[0].type.get('bits', 0) > 16:
-                        narrow.append(n)
-            ctx.check(bool(narrow), 'R04.2', '%s#tag-narrow.found@%d' % (fq, i), c.loc, 'the wide tag value is narrowed to a 16-bit key somewhere (%d site(s))' % len(narrow))
-            for j, n in enumerate(narrow):
-                lo, hi = q.interval_from_guards(f, n, n.children[0], match=lambda x: q.refers_to_decl(x, wide))
-                ctx.check(hi <= 65535, 'R04.2', '%s#tag-narrow@%d.%d' % (fq, i, j), n.loc, 'narrowing to unsigned short happens only for values <= %s' % hi,
-                          'tag value is narrowed to unsigned short without a dominating <= 65535 decision')
-    ctx.need(n_conv >= 3, 'fewer than 3 tag conversions found (%d)' % n_conv)
+    tag_rule(ctx, prog, 'R04.2')
 
     # ---------------- R04.3
     f = prog.fn1(MB + 'decode')
